@@ -4,6 +4,7 @@ import HC.Props.C12
 import HC.Props.C19
 import HC.Proto.H2Window
 import HC.Proto.H2WireInv
+import HC.Extracted.H2Init
 /-!
 # C02 — HTTP response delivery fidelity and legal framing (the hypercorn side of it)
 
@@ -615,5 +616,22 @@ example : ∃ g, grun [("server".b, "h".b)] (ginit 65535 4) exOps = some g ∧
   decide
 
 end H2
+
+/-! ### the response to an h2c upgrade request has a stream to travel on -/
+
+/-- **an `Upgrade: h2c` request always gets stream 1**: `H2Protocol.initiate` - its test is read off the source
+    (`H2Init.upgradePath`) - takes h2's upgrade entry point, the only one that creates stream 1 (half-closed for the client),
+    for EVERY HTTP2-Settings value the HTTP/1 side hands over: the client's real settings and the empty string of an empty
+    or absent header alike.  On `initiate_connection()` instead, h2 refuses every send on stream 1 and the client gets the
+    101, the server preface and nothing of the response. -/
+theorem h2c_response_has_a_stream (settings : Bytes) : HC.Extracted.H2Init.upgradePath (some settings) = true := by
+  simp [HC.Extracted.H2Init.upgradePath]
+
+/-- prior knowledge and ALPN (`initiate()` without settings) start a plain connection: the client opens its own streams -/
+theorem prior_knowledge_opens_no_stream : HC.Extracted.H2Init.upgradePath none = false := by
+  simp [HC.Extracted.H2Init.upgradePath]
+
+/-- the HTTP/1 side hands over a value (the empty one when there is no HTTP2-Settings header), never `None` -/
+theorem h2c_settings_always_given : HC.Extracted.H2Init.h2cSettingsDefaultEmpty = true := rfl
 
 end HC.Props.C02
